@@ -107,10 +107,18 @@ def main(repo, data_dir, out, order='f'):
             s['words'] = c(words)
             s['senses'] = c(senses)
             s['synsets'] = c(synsets)
+            sel_words, sel_syn = words[:4], synsets[:5]
+            if reverse:
+                # entities are visited in another order too (results are keyed by lexicon
+                # and id): no answer may depend on which entity was asked first
+                words, senses, synsets = words[::-1], senses[::-1], synsets[::-1]
+
+            def ek(e):
+                return '%s|%s' % (e.lexicon().specifier(), e.id)
             s['ilis'] = c(w.ilis())
             s['describe'] = call(w.describe)
             for x in words:
-                k = 'W:' + x.id
+                k = 'W:' + ek(x)
                 s[k] = [call(x.forms), call(x.senses), call(x.synsets), call(x.derived_words),
                         call(x.metadata), [call(f.tags) for f in x.forms()],
                         [call(f.pronunciations) for f in x.forms()]]
@@ -118,12 +126,12 @@ def main(repo, data_dir, out, order='f'):
                                                call(w.synsets, str(x.lemma())),
                                                call(w.senses, str(x.lemma()).upper())]
             for x in senses:
-                s['S:' + x.id] = [call(x.word), call(x.synset), call(x.examples), call(x.counts),
+                s['S:' + ek(x)] = [call(x.word), call(x.synset), call(x.examples), call(x.counts),
                                   call(x.frames), call(x.relations), call(x.get_related),
                                   call(x.relation_map), call(x.get_related_synsets),
                                   call(x.closure), call(x.metadata)]
             for x in synsets:
-                s['SS:' + x.id] = [
+                s['SS:' + ek(x)] = [
                     call(x.senses), call(x.words), call(x.lemmas), call(x.definition),
                     call(x.examples), call(x.relations), call(x.get_related),
                     call(x.relation_map), call(x.hypernyms), call(x.hyponyms),
@@ -145,9 +153,11 @@ def main(repo, data_dir, out, order='f'):
                 s['ic2'] = call(wn.ic.compute, corpus, w, False, 0.5)
             except Exception as e:
                 s['ic'] = ['exc', type(e).__name__]
-            pairs = [(a, b) for a in synsets[:5] for b in synsets[:5]]
+            pairs = [(a, b) for a in sel_syn for b in sel_syn]
+            if reverse:
+                pairs = pairs[::-1]
             for a, b in pairs:
-                k = 'P:%s|%s' % (a.id, b.id)
+                k = 'P:%s||%s' % (ek(a), ek(b))
                 row = []
                 for sim in (False, True):
                     row += [call(wn.taxonomy.shortest_path, a, b, sim),
@@ -165,8 +175,18 @@ def main(repo, data_dir, out, order='f'):
                 s[k] = row
             m = wn.morphy.Morphy(w)
             m0 = wn.morphy.Morphy()
+            try:
+                wl = wn.Wordnet(lemmatizer=m, **kw)
+                wl0 = wn.Wordnet(lemmatizer=m0, **kw)
+                for form in [str(x.lemma()) for x in sel_words] + \
+                        [str(x.lemma()) + 's' for x in sel_words] + ['cats', 'lights', 'ran']:
+                    s['lemmatized:' + form] = [call(wl.words, form), call(wl.senses, form),
+                                               call(wl.synsets, form), call(wl0.words, form),
+                                               call(wl0.synsets, form)]
+            except wn.Error:
+                pass
             for form in ['cats', 'running', 'wolves', 'oxen', 'es', 'bigger'] + \
-                    [str(x.lemma()) + 's' for x in words[:3]]:
+                    [str(x.lemma()) + 's' for x in sel_words[:3]]:
                 s['morphy:' + form] = [call(m, form, None), call(m, form, 'n'),
                                        call(m0, form, 'v')]
             t[name] = s
